@@ -787,6 +787,48 @@ pub fn gen(prop: &str, tier: &str, seed: u64) -> Out {
                 o.push(format!("chaincheck {}", line));
             }
         }
+        "C20" => {
+            // deep nesting, each case in a child process (a stack overflow kills only the child)
+            let recursive = ["parse", "fromslice", "fromslicetext", "encode", "drop", "tostring", "topretty", "compare", "contains", "cmpkey", "strip", "toserde", "delkp"];
+            let iterative = ["travstr", "getpath", "getkp", "parsepath"];
+            let small: &[usize] = &[1, 2, 3, 10, 50, 100, 255, 256, 257, 1000, 3000];
+            let big: &[usize] = if tier == "thorough" { &[10000, 30000, 100000, 300000] } else { &[10000, 100000] };
+            for shape in ["arr", "obj"] {
+                for api in recursive.iter().chain(iterative.iter()) {
+                    for n in small.iter().chain(big.iter()) {
+                        if *api == "parsepath" && *n > 3000 { continue; }
+                        o.push(format!("deep {} {} {}", api, shape, n));
+                        o.stat(if *n >= 10000 { "deep:>=10000" } else { "deep:<10000" });
+                    }
+                }
+            }
+            // extreme integer arguments on ordinary documents
+            let mut both = |o: &mut Out, l: String| { o.push(format!("spec:{}", l)); o.push(l); };
+            for _ in 0..scale(tier, 150, 4000) {
+                let v = match r.below(4) { 0 => gen_scalar(&mut r, &c), 1 => gen_value(&mut r, &c, 0), _ => Value::Array((0..r.below(5)).map(|_| gen_value(&mut r, &c, 2)).collect()) };
+                let d = hex(&v.to_vec());
+                let n = match &v { Value::Array(a) => a.len() as i64, _ => 1 };
+                let e = hex(&gen_value(&mut r, &c, 2).to_vec());
+                let pre = gen_prefix(&mut r, &c);
+                for i in [i32::MIN as i64, i32::MIN as i64 + 1, -n - 1, -n, -1, 0, n - 1, n, n + 1, i32::MAX as i64 - 1, i32::MAX as i64] {
+                    if i < i32::MIN as i64 || i > i32::MAX as i64 { continue; }
+                    both(&mut o, format!("delidx {} {} {}", pre, d, i));
+                    both(&mut o, format!("arrins {} {} {} {}", pre, d, i, e));
+                    both(&mut o, format!("delkp {} {} i{}", pre, d, i));
+                    both(&mut o, format!("getkp {} i{}", d, i));
+                    both(&mut o, format!("delkp {} {} i0,i{}", pre, d, i));
+                    if i >= 0 { both(&mut o, format!("getidx {} {}", d, i)); }
+                    o.stat("extreme:int-args");
+                }
+                for p in ["$[2147483647]", "$[last - 2147483647]", "$[last + 2147483647]", "$[0 to 2147483647]", "$[last - 2147483647 to last + 2147483647]",
+                          "$[2147483646 to 2147483647]", "$[last - 2147483648]", "$[*][last + 2147483647]", "$[2147483648]", "$[-2147483648]", "$[last - 0, last + 0, 0]"] {
+                    for m in ["all", "first", "array", "mixed"] {
+                        both(&mut o, format!("select {} {} {} {}", m, pre, d, hex(p.as_bytes())));
+                    }
+                    o.stat("extreme:path-index");
+                }
+            }
+        }
         "C19" => {
             let fc = c.clone().finite();
             for _ in 0..scale(tier, 1500, 40000) {
